@@ -16,7 +16,7 @@ WHAT = {
  "C10": ("node model: request routing to eligible ready peers, id assignment, answer correlation; hop-by-hop ids drawn by concurrent senders from one connection's generator (line skeleton regenerated from the source) are distinct and non-zero under every schedule of any number of threads; for every state an unroutable request changes no write queue and a routed one is appended, with non-zero identifiers, to exactly the chosen connection", "C10"),
  "C11": ("watchdog clauses of the timer check for all clock and timeout values; for every sequence of operations a connection awaiting a DWA carries a valid DWR time stamp, so that in every reachable state the timer check closes it once the DWA timeout is exceeded and sends no second DWR before; for every state a DWR received in either ready sub-state is answered by exactly one 2001 answer on its connection, changes no connection state and reaches no application", "C11"),
  "C12": ("reconnect policy iff-theorem, DPR handling (for every state a DPR on a ready connection is answered by exactly one 2001 answer, leaves the connection in DISCONNECTING — not a routable state — and reaches no application); node model, for every sequence of operations: every connect() the node has issued was to a configured peer whose persistent flag is set, and the flags are never rewritten (non-persistent peers are never dialled); every registered connection the node dialled is the Peer.connection of the peer its node name resolves to, hence never two self-initiated connections to one peer", "C12"),
- "C13": ("node model: the connection/socket tables stay mutually consistent for every sequence of operations (a removed connection is in none of them); removal lemmas for peer records and readiness; for every sequence of operations a peer without connection that has a disconnect time also has a disconnect reason; for every sequence of operations a connection object that is not registered has a closed socket, stopped workers and is in none of the socket / pending-answer tables", "C13"),
+ "C13": ("node model: the connection/socket tables stay mutually consistent for every sequence of operations (a removed connection is in none of them); removal lemmas for peer records and readiness; for every sequence of operations a peer without connection that has a disconnect time also has a disconnect reason; for every sequence of operations a connection object that is not registered has a closed socket, stopped workers and is in none of the socket / pending-answer tables; for every state the two writers of Application.is_ready: flagging a connection ready sets the applications of its peer ready, removing a connection recomputes the flag (never to ready; not ready once no configured peer has a ready current connection)", "C13"),
  "C14": ("node + threading-application model: no worker dies, every slot accounted for, consumers alive — for every sequence of operations (faults, handler outcomes, consumer/handler schedules)", "C14"),
  "C15": ("write path as an interleaving system of queueing threads, writer and I/O loop (program extracted from the running code): accepted bytes are always a prefix of, finally equal to, the FIFO concatenation, for every schedule, partial write and write error", "C15"),
  "C16": ("identifier generators: never zero, wrap to 1, distinct within the period, start-value and session-id format laws; for the line skeleton extracted from the source, distinctness under every schedule of any number of threads", "C16"),
